@@ -145,4 +145,7 @@ def counterWhy (incs : List Nat) (final : Nat) (gets : List Nat) : String :=
 /-- Mixed workload: every value a reader saw was written by somebody (or is the initial one). -/
 def readersOk (written : List Nat) (gets : List Nat) : Bool := gets.all (fun g => written.contains g)
 
+/-- At every quiescent point (no call in progress) `Get` returns what the store holds (0: absent). -/
+def quiescentOk (gets raws : List Nat) : Bool := gets == raws
+
 end Hive.Typed.Conc
